@@ -867,7 +867,7 @@ impl<'a> G<'a> {
             }
             14 if global => {
                 w.push("defcalgrammar ");
-                w.lexeme("string", self.r.pick_str(&["\"openpulse\"", "'openpulse'"]));
+                w.lexeme("string", self.r.pick_str(&["\"openpulse\"", "'openpulse'", "'open\\'pulse'", "\"open\\\"pulse\"", "'né\\'ø'"]));
                 w.push(";");
             }
             15 if global => {
@@ -1013,13 +1013,33 @@ impl<'a> G<'a> {
             }
             _ => name.clone(),
         };
-        // spelling of the literal
-        let lit = match self.r.below(if self.sw.odd_spellings { 6 } else { 2 }) {
-            0 | 1 => format!("\"{}\"", value),
-            2 => format!("'{}'", value),
-            3 => format!("\"{}\"", value.replace('.', "\\x2e")),
-            4 => format!("\"{}\"", value.replace('f', "\\x66")),
-            _ => format!("\"{}\"", value),
+        // spelling of the literal: a value with a quote character in it must escape it (or use
+        // the other kind of quote); a non-ASCII character may be written as an escape
+        let has_sq = value.contains('\'');
+        let has_dq = value.contains('"');
+        let lit = if has_dq {
+            // (a bare `"` inside a single-quoted literal does not evaluate in this front end: that
+            // is a matter of literal evaluation, property C10, and is not generated)
+            match self.r.below(2) {
+                0 => format!("\"{}\"", value.replace('"', "\\\"")),
+                _ => format!("'{}'", value.replace('"', "\\\"")),
+            }
+        } else if has_sq {
+            match self.r.below(3) {
+                0 => format!("\"{}\"", value),
+                1 => format!("'{}'", value.replace('\'', "\\'")),
+                _ => format!("\"{}\"", value.replace('\'', "\\'")),
+            }
+        } else {
+            match self.r.below(if self.sw.odd_spellings { 8 } else { 2 }) {
+                0 | 1 => format!("\"{}\"", value),
+                2 => format!("'{}'", value),
+                3 => format!("\"{}\"", value.replace('.', "\\x2e")),
+                4 => format!("\"{}\"", value.replace('f', "\\x66")),
+                5 => format!("\"{}\"", value.replace('é', "\\xe9")),
+                6 => format!("'{}'", value.replace('é', "\\u{e9}")),
+                _ => format!("\"{}\"", value),
+            }
         };
         (lit, Some(value))
     }
@@ -1275,6 +1295,12 @@ pub fn gen_pristine(r: &mut Rng, profile: Profile, root: &str, cycle: bool) -> G
             };
             // rarely a file is literally called like the fake path of string sources
             let base = if r.chance(1, 30) { "no file".to_string() } else { base };
+            // or has a quote character in its name (legal, and the include must escape it)
+            let base = match r.below(40) {
+                0 => format!("q'x{}.inc", i),
+                1 => format!("q\"x{}.inc", i),
+                _ => base,
+            };
             let name = if r.chance(1, 6) { format!("sub/{}", base) } else { base };
             LogicalFile {
                 name,
